@@ -216,12 +216,12 @@ def masterRun (S : Static) (orc : Oracle) (fuel : Nat) (s : Speed) :
     let wake := (m.sim.sched "").wake
     let (comps, whenT) := firstWakeups wake
     let due : Option Int := whenT.map (dueReal m s)
-    -- a stimulus strictly before the due tick (or with nothing due) is handled first
+    -- a stimulus not after the due tick (or with nothing due) is handled first
     let stimFirst : Option (Stim × List Stim) := match stims with
       | [] => none
       | st :: rest => match due with
         | none => some (st, rest)
-        | some d => if st.real < d then some (st, rest) else none
+        | some d => if st.real ≤ d then some (st, rest) else none
     match stimFirst with
     | some (st, rest) =>
       let now := if st.real < m.now then m.now else st.real
